@@ -1,14 +1,17 @@
 #!/bin/sh
-# offline setup: parse every specification module with SANY; nothing is downloaded or compiled
+# offline setup: parse every specification module with SANY (8 at a time); nothing is downloaded or compiled
 cd "$(dirname "$0")" || exit 2
 mkdir -p work evidence replays
-rc=0
-for f in spec/*.tla; do
-  m=$(basename "$f" .tla)
-  out=$(cd spec && timeout 120 java -cp /opt/veriftools/tla/tla2tools.jar:/opt/veriftools/tla/CommunityModules-deps.jar tla2sany.SANY "$m.tla" 2>&1)
+CP=/opt/veriftools/tla/tla2tools.jar:/opt/veriftools/tla/CommunityModules-deps.jar
+# the Ind_* modules (inductive proofs) use the TLAPS standard library, which is not on SANY's default path
+PCP=$CP:/opt/veriftools/tlapm/lib/tlapm/stdlib
+export CP PCP
+fails=$(cd spec && ls *.tla | xargs -P 8 -I{} sh -c '
+  case "{}" in Ind_*) cp=$PCP ;; *) cp=$CP ;; esac
+  out=$(timeout 300 java -cp $cp tla2sany.SANY "{}" 2>&1)
   if echo "$out" | grep -q -E "Semantic errors|Parse Error|Fatal|Could not|\*\*\* Errors"; then
-    echo "SANY failed on $m"; echo "$out" | tail -20; rc=2
-  fi
-done
-[ $rc -eq 0 ] && echo "setup ok: all spec modules parse"
-exit $rc
+    echo "SANY failed on {}"; echo "$out" | tail -15
+  fi')
+if [ -n "$fails" ]; then echo "$fails"; exit 2; fi
+echo "setup ok: all spec modules parse"
+exit 0
